@@ -268,7 +268,8 @@ Proof.
     + destruct (client_rx c p) as [c' out] eqn:E. eapply Hgen; eauto.
     + destruct (client_rx c p) as [c' out] eqn:E. eapply Hgen; eauto.
     + inversion Hstep; subst; cbn. auto.
-  - destruct (cl_phase c); try discriminate. inversion Hstep; subst; cbn. auto.
+  - destruct (cl_phase c) eqn:Eph; try discriminate. inversion Hstep; subst; cbn.
+    split; [reflexivity|]. destruct Hv as [Hv|Hv]; [discriminate|right; exact Hv].
 Qed.
 
 (* 4. the client only completes with its own n and only if that n is
@@ -304,13 +305,13 @@ Proof.
   unfold sched_fresh.
   destruct Hs as [->| ->];
     cbn [hrun hstep client_timeout cl_phase cl_n h_c h_s h_ab h_ba h_syns_ab app
-         server_rx server_syn sv_phase sv_n sv_resent after_hop];
-    rewrite Hv;
+         server_rx sv_phase sv_n sv_resent after_hop];
+    unfold server_syn; rewrite Hv;
     cbn [hrun hstep client_rx cl_phase cl_n h_c h_s h_ab h_ba h_syns_ab app
-         server_rx server_syn sv_phase sv_n sv_resent after_hop];
+         server_rx sv_phase sv_n sv_resent after_hop];
     rewrite Z.eqb_refl;
     cbn [hrun hstep client_rx cl_phase cl_n h_c h_s h_ab h_ba h_syns_ab app
-         server_rx server_syn sv_phase sv_n sv_resent after_hop];
+         server_rx sv_phase sv_n sv_resent after_hop];
     eexists; repeat split.
 Qed.
 
